@@ -5,7 +5,7 @@ from .base import Verdict, sig_of, crash_check
 
 ID = "C11"
 LEVEL = "exploration"
-RUNS = (30000, 900000)
+RUNS = (60000, 1200000)
 RULE = ("one seeded history of 3-60 create/set/get/get-default/list calls over 5 sections x 5 keys on an object from one of four "
         "constructors (or a parsed plain-profile file with duplicate keys), checked call by call against an ordered-map model; "
         "non-trivial = history with at least one overwrite, one lookup miss and growth past the 8 pre-allocated entries or past the "
